@@ -36,7 +36,11 @@ fn panic_hook(info: &std::panic::PanicHookInfo<'_>) {
     if std::env::var("SIM_BACKTRACE").is_ok() {
         eprintln!("{}", std::backtrace::Backtrace::force_capture());
     }
-    let in_mmtk = loc.contains("/repo/") || loc.starts_with("src/");
+    // The simulator's own sources are compiled with crate-relative paths ("src/exec.rs");
+    // mmtk-core is a path dependency and reports absolute paths, wherever its tree lives.  Panics
+    // raised inside std or a dependency on behalf of mmtk-core carry the caller's location.
+    let in_harness = loc.starts_with("src/") || loc.contains("/verif/sim/");
+    let in_mmtk = !in_harness;
     let head: String = msg.chars().take(300).collect();
     if in_mmtk {
         violation(
